@@ -17,7 +17,14 @@ func judgeC06(c *StopCase, o *StopObs) error {
 	first := o.ErrorResults[0]
 	k := c.Fault.Kind
 	switch k {
-	case "handler_err", "mapper_err", "mapper_cols", "unsupported", "invalid", "undecodable":
+	case "handler_err", "handler_err_cancel", "mapper_err", "mapper_cols":
+		// the library was handed the failure itself: a cancellation that happens to coincide does not excuse swallowing it
+		if o.CauseFired && o.StreamErr == nil {
+			return fmt.Errorf("the %s failure was returned to the library but Stream returned nil (caller cancelled: %v, Error() = %v)", k, o.CallerCancelled, first)
+		}
+		return nil
+	case "unsupported", "invalid", "undecodable":
+		// a cancelled parser may legitimately stop before it reads the offending event
 		if o.CauseFired && o.StreamErr == nil && !o.CallerCancelled {
 			return fmt.Errorf("cause %s reached the library but Stream returned nil (Error() = %v)", k, first)
 		}
@@ -69,7 +76,7 @@ func TestC06(t *testing.T) {
 		}
 	}
 	// weight the causes the property is about
-	kinds = append(kinds, "err", "err", "err", "fin", "rst", "short", "outofseq", "handler_err", "unsupported", "invalid", "undecodable", "mapper_err", "mapper_cols")
+	kinds = append(kinds, "err", "err", "err", "fin", "rst", "short", "outofseq", "handler_err", "handler_err_cancel", "unsupported", "invalid", "undecodable", "mapper_err", "mapper_cols")
 	rapidCheck(t, func(rt *rapid.T) {
 		c := drawStop(rt, o, kinds)
 		journal("C06", "c06", c)
